@@ -31,6 +31,7 @@ EXPLANATION = (
     " (R6, round 3) the fill-in network connects the super source / sink to the expansion's global source / sink."
     " (R3, round 4) character-set stripping (rstrip / strip / replace) is a decoder that differs from the writer's naming scheme; (R6) the factor-0 rule (C10.R3) on the translated elements."
     ' (R6, hunt 4) the expansion copies attribute dictionaries as data (update), not as keyword arguments; C04.R5 cap provider.'
+    ' (R6, hunt 5) attribute dictionaries are copied as data package-wide, not only in NodeExpandedDiGraph (window subgraphs of MinFlowDecomp).'
 )
 DECIDED = ["results expressed in original node names", "every node-level input is translated to the expanded namespace",
            "expand/condense naming scheme agrees", "nodes lacking the attribute are ignored"]
